@@ -132,6 +132,10 @@ def processSlots (chain : UpChain) (supported : List Fork) (c : Schedule) (spe :
     | .ok s' => processSlots chain supported c spe n s'
     | r => r
 
+/-- `Fork.GetDomain` / `common.GetDomain` (common/versioning.go): the version a state's fork record yields for
+a message epoch: the previous version strictly before the record's epoch, the current version from it on -/
+def domainVersion (s : FState) (epoch : UInt64) : UInt32 := if epoch < s.epoch then s.prev else s.cur
+
 /-! ## Envelope tables -/
 
 /-- components of a signed block / envelope that the conversions move around -/
